@@ -44,6 +44,26 @@ pub struct Case {
     /// ports: the 4-tuple is its own mirror image)
     #[serde(default)]
     pub self_addressed: bool,
+    /// the request behind VLAN tags (out of scope: should it be answered all the same, the reply
+    /// must still be the mirror image, EtherType included)
+    #[serde(default)]
+    pub vlan: Option<Vec<(u16, u16)>>,
+    /// for handshaken TCP data: an earlier data segment on the SAME flow (the judged request is
+    /// then a later segment of an established, possibly already identified connection)
+    #[serde(default)]
+    pub prev: Option<Pay>,
+}
+
+/// STUN messages for an established STUN flow: any class / method, CHANGE-REQUEST inside
+fn stun_any_type() -> impl Strategy<Value = Pay> {
+    (stun_req(), prop::option::weighted(0.6, prop::sample::select(vec![0x0101u16, 0x0111, 0x0011, 0x0002, 0x0003, 0x0201, 0x0081]))).prop_map(|(r, t)| {
+        let mut b = r.bytes();
+        if let Some(t) = t {
+            b[0] = (t >> 8) as u8;
+            b[1] = t as u8;
+        }
+        Pay::Bytes(Hex(b))
+    })
 }
 
 pub fn ip_tweak() -> impl Strategy<Value = IpTweak> {
@@ -54,7 +74,16 @@ pub fn case_strategy() -> impl Strategy<Value = Case> {
     scenario_quiet(Fam::Any).prop_flat_map(|scn| {
         let v4 = scn.net.is_v4();
         let csum = prop_oneof![5 => Just(None), 1 => prop::sample::select(vec![0u16, 0xffff, 0xdead, 1]).prop_map(Some), 1 => any::<u16>().prop_map(Some)];
-        (Just(scn), prop_oneof![2 => Just(vec![]), 1 => vec(step_leaf(), 0..=6)], req(v4), csum, prop::option::weighted(0.15, mac_unicast()), prop::option::weighted(0.35, ip_tweak()), prop::option::weighted(0.3, (ip4_options(), prop_oneof![1 => Just(Hex(vec![])), 3 => tcp_options()])), prop::bool::weighted(0.04)).prop_map(|(mut scn, hist, mut req, req_csum, alias_mac, ip_tweak, opts, self_addressed)| {
+        (Just(scn), prop_oneof![2 => Just(vec![]), 1 => vec(step_leaf(), 0..=6)], req(v4), csum, prop::option::weighted(0.15, mac_unicast()), prop::option::weighted(0.35, ip_tweak()), prop::option::weighted(0.3, (ip4_options(), prop_oneof![1 => Just(Hex(vec![])), 3 => tcp_options()])), (prop::bool::weighted(0.04), prop::option::weighted(0.04, vlan_tags()), prop::option::weighted(0.25, prop_oneof![2 => app_req().prop_map(Pay::App), 2 => stun_req_magic_big().prop_map(|r| Pay::App(AppReq::Stun(r)))]), prop::option::weighted(0.15, stun_any_type()))).prop_map(|(mut scn, hist, mut req, req_csum, alias_mac, ip_tweak, opts, (self_addressed, vlan, prev, later_stun))| {
+            // a later segment of a STUN flow: any STUN message type
+            let mut prev = prev;
+            if let (Some(ls), Req::TcpData { pay, .. }) = (later_stun, &mut req) {
+                if let Some(Pay::App(AppReq::Stun(_))) = &prev {
+                    *pay = ls;
+                } else {
+                    prev = prev.take();
+                }
+            }
             if self_addressed {
                 scn.net.cip = scn.net.sip;
                 if let Some(d) = &mut scn.cfg.deny {
@@ -66,7 +95,7 @@ pub fn case_strategy() -> impl Strategy<Value = Case> {
                     _ => {}
                 }
             }
-            Case { scn, hist, req, req_csum, alias_mac, ip_tweak, opts, self_addressed }
+            Case { scn, hist, req, req_csum, alias_mac, ip_tweak, opts, self_addressed, vlan, prev }
         })
     })
 }
@@ -106,7 +135,24 @@ pub fn run_case(c: &Case, st: &mut Stats) -> Option<(Vec<u8>, Vec<u8>)> {
         }
     }
     st.frames(w.sent + 1);
-    let mut reqf = match realize(&sut, &c.scn.net, &c.req) {
+    let realized = match (&c.req, &c.prev) {
+        (Req::TcpData { sport, dport, isn, pay }, Some(prev)) => {
+            // handshake, the earlier segment, then the judged one with continued sequence numbers
+            let flow = Flow { net: c.scn.net.clone(), sport: *sport, dport: *dport };
+            match learn_cookie(&sut, &flow, *isn) {
+                Ok(cookie) => {
+                    let pb = prev.bytes(true);
+                    let _ = sut.frame(&flow.data(isn.wrapping_add(1), cookie.wrapping_add(1), &pb));
+                    st.class(&format!("later-segment-of-a-flow:after-{}", prev.kind()));
+                    st.frames(1);
+                    Ok(flow.data(isn.wrapping_add(1).wrapping_add(pb.len() as u32), cookie.wrapping_add(1), &pay.bytes(true)))
+                }
+                Err(e) => Err(e),
+            }
+        }
+        _ => realize(&sut, &c.scn.net, &c.req),
+    };
+    let mut reqf = match realized {
         Ok(f) => f,
         Err(_) => {
             st.class("skipped:unrealizable");
@@ -131,6 +177,10 @@ pub fn run_case(c: &Case, st: &mut Stats) -> Option<(Vec<u8>, Vec<u8>)> {
         if apply_ip_tweak(&mut reqf, t) {
             st.class(&format!("request-ip-header:flags={:#x}{}", t.flags & 7, if t.ttl <= 1 { ":ttl<=1" } else { "" }));
         }
+    }
+    if let Some(tags) = &c.vlan {
+        reqf = vlan_tagged(&reqf, tags);
+        st.class("request-behind-vlan-tags");
     }
     let fam = if c.scn.net.is_v4() { "v4" } else { "v6" };
     match sut.frame(&reqf) {
